@@ -11,9 +11,10 @@
 (*        layout in {"default","reverse","reverse-list"}; info in {"default","inline","hidden","right",           *)
 (*        "inline-right"}; sep: a separator is drawn (FALSE = --no-separator); header: the lines of --header;     *)
 (*        hlines: the first --header-lines input records; prompt/pointer/marker/ellipsis: texts                   *)
-(*   s = [input, cx, list, texts, sel, multi, cy, offset, count]                                                   *)
+(*   s = [input, cx, xoffset, list, texts, sel, multi, cy, offset, count]                                          *)
 (*        list: result ids in rank order, texts[i] the line of list[i]; sel: selected ids; multi: limit (0 = off) *)
 (*        cy: index of the current result; offset: index of the first displayed result; count: items loaded       *)
+(*        xoffset: number of leading query characters scrolled out of the prompt line (0 unless a query was too long) *)
 (*                                                                                                                 *)
 (* Two layers are kept apart:                                                                                      *)
 (*   DOCUMENTED  - placement (--layout, --header, --header-lines, --header-first, --info), what a row says        *)
@@ -153,9 +154,21 @@ InfoText(s) ==
 TrimMsg(m, maxw, g) == IF Len(m) <= maxw THEN m ELSE TakeW(m, maxw - 2, g) \o Rep(".", Constrain(maxw, 0, 2))
 SepFill(n, c) == IF c.sep THEN Rep("-", n) ELSE <<>>
 
-(* the part of the query shown on the prompt line when the query is q (the whole query when it fits) *)
+(* The part of the query shown on the prompt line.  CODE-DERIVED (updatePromptOffset): the query scrolls            *)
+(* horizontally by s.xoffset characters; what precedes the cursor is cut on the left, what follows on the right.    *)
 PromptRoom(g, c) == Max2(1, g.w - TW(c.prompt, g) - 1)
 QueryFits(s, g, c) == TW(s.input, g) <= PromptRoom(g, c)
+TakeRightW(t, lim, g) == Rev(TakeW(Rev(t), lim, g))                     \* trimLeft: the longest suffix within lim columns
+QBefore(s, g, c) == TakeRightW(Sub(s.input, s.xoffset + 1, s.cx), PromptRoom(g, c), g)
+QAfter(s, g, c) == TakeW(Sub(s.input, s.cx + 1, Len(s.input)), PromptRoom(g, c) - TW(QBefore(s, g, c), g), g)
+QShown(s, g, c) == QBefore(s, g, c) \o QAfter(s, g, c)
+(* the offset updatePromptOffset leaves behind, given the previous one (used by MC_Screen to walk through scrolled prompts) *)
+PromptOffset(s, g, c) ==
+    LET m == PromptRoom(g, c)
+        b == Sub(s.input, 1, s.cx)
+        mn == Len(b) - Len(TakeRightW(b, m, g))
+        mx == mn + (m - Max2(0, m - s.cx)) \div 2
+    IN Constrain(s.xoffset, mn, mx)
 PromptPart(c, g) == Fit(c.prompt, g.w - 2, c, g)
 
 InfoLineRow(s, g, c) ==                                    \* the line below/above the prompt
@@ -187,18 +200,14 @@ PromptRow(q, s, g, c) ==                                   \* q: the displayed p
          [] OTHER -> base
 
 SlotRow(sl, s, g, c) ==
-    CASE sl.kind = "prompt" -> PromptRow(s.input, s, g, c)
+    CASE sl.kind = "prompt" -> PromptRow(QShown(s, g, c), s, g, c)
       [] sl.kind = "info" -> InfoLineRow(s, g, c)
       [] sl.kind = "header" -> HeaderRow(HdrStack(c)[sl.ix], g, c)
       [] sl.kind = "hline" -> HeaderRow(c.hlines[sl.ix], g, c)
       [] sl.kind = "item" -> ItemRow(sl.ix, s, g, c)
       [] OTHER -> <<>>
 
-(* exact rendering; defined when the query fits on the prompt line (QueryFits) *)
 Render(s, g, c) == [r \in 1..g.h |-> RTrim(SlotRow(SlotAt(r - 1, g, c), s, g, c))]
-(* the same with an explicit displayed part of the query (long queries scroll horizontally) *)
-RenderQ(q, s, g, c) == [r \in 1..g.h |-> LET sl == SlotAt(r - 1, g, c) IN
-                           RTrim(IF sl.kind = "prompt" THEN PromptRow(q, s, g, c) ELSE SlotRow(sl, s, g, c))]
 
 -------------------------------------------------------------------------------
 (* DOCUMENTED claims, stated on an observed screen `rows` (captured or rendered).  Pointer, marker and prompt    *)
@@ -224,15 +233,15 @@ InlineInfo(c) == c.info \in {"inline", "inline-right"}
 ShowsPart(row, q, g, c) ==
     LET p == PromptPart(c, g) IN
     row = RTrim(p \o q) \/ (InlineInfo(c) /\ IsPrefix(p \o q \o <<" ">>, row))        \* the info may follow
-(* scrolled: an earlier query was longer than the line; the prompt may then stay scrolled horizontally             *)
+(* xoffset > 0: an earlier query was longer than the line; the prompt may then stay scrolled horizontally         *)
 (* (CODE-DERIVED: updatePromptOffset keeps its offset within [0, cx/2] once it has become positive)                *)
-ShowsQuery(row, s, g, c, scrolled) ==
-    IF QueryFits(s, g, c) /\ ~scrolled THEN ShowsPart(row, s.input, g, c)
+ShowsQuery(row, s, g, c) ==
+    IF QueryFits(s, g, c) /\ s.xoffset = 0 THEN ShowsPart(row, s.input, g, c)
     ELSE \E i \in 1..(Len(s.input) + 1) : \E j \in (i - 1)..Len(s.input) :
             /\ i - 1 <= s.cx /\ s.cx <= j
             /\ 2 * (j - i + 1) >= Min2(Len(s.input), (PromptRoom(g, c) - 3) \div 2)    \* a real part, not a token one
             /\ ShowsPart(row, Sub(s.input, i, j), g, c)
-ClaimPrompt(rows, s, g, c, scrolled) == \A r \in RowsOf("prompt", g, c) : ShowsQuery(rows[r], s, g, c, scrolled)
+ClaimPrompt(rows, s, g, c) == \A r \in RowsOf("prompt", g, c) : ShowsQuery(rows[r], s, g, c)
 
 (* "the info line shows matched/total (and selected) counts" (wherever --info puts it, when there is room) *)
 InfoShown(s) == Digits(N(s)) \o <<"/">> \o Digits(Max2(N(s), s.count))
@@ -241,7 +250,7 @@ SelShown(s) == IF s.multi = 0 THEN <<>>
                ELSE <<"(">> \o Digits(Len(s.sel)) \o <<"/">> \o Digits(s.multi) \o <<")">>
 InfoRowIx(g, c) == IF InlineInfo(c) THEN RowsOf("prompt", g, c) ELSE RowsOf("info", g, c)
 ClaimInfo(rows, s, g, c) ==
-    (c.info # "hidden" /\ ~c.inputless /\ QueryFits(s, g, c) /\ InfoFits(s.input, s, g, c)) =>
+    (c.info # "hidden" /\ ~c.inputless /\ InfoFits(QShown(s, g, c), s, g, c)) =>
         \A r \in InfoRowIx(g, c) : Contains(rows[r], InfoShown(s)) /\ Contains(rows[r], SelShown(s))
 
 (* "each list row shows the corresponding result line - complete when it fits, otherwise truncated with the      *)
@@ -273,19 +282,18 @@ ClaimHeader(rows, g, c) ==
     /\ \A r \in RowsOf("hline", g, c) : HeaderShown(rows[r], c.hlines[SlotAt(r - 1, g, c).ix], g, c)
 ClaimBlank(rows, g, c) == \A r \in RowsOf("blank", g, c) : rows[r] = <<>>
 
-ClaimsS(rows, s, g, c, scrolled) ==
+Claims(rows, s, g, c) ==
     /\ ClaimHeight(rows, g)
     /\ ClaimWidth(rows, g)
-    /\ ClaimPrompt(rows, s, g, c, scrolled)
+    /\ ClaimPrompt(rows, s, g, c)
     /\ ClaimInfo(rows, s, g, c)
     /\ ClaimList(rows, s, g, c)
     /\ ClaimHeader(rows, g, c)
     /\ ClaimBlank(rows, g, c)
-Claims(rows, s, g, c) == ClaimsS(rows, s, g, c, FALSE)
-FailedClaims(rows, s, g, c, scrolled) ==
+FailedClaims(rows, s, g, c) ==
     IF ~ClaimHeight(rows, g) THEN "height"
     ELSE (IF ClaimWidth(rows, g) THEN "" ELSE "width ")
-         \o (IF ClaimPrompt(rows, s, g, c, scrolled) THEN "" ELSE "prompt ")
+         \o (IF ClaimPrompt(rows, s, g, c) THEN "" ELSE "prompt ")
          \o (IF ClaimInfo(rows, s, g, c) THEN "" ELSE "info ")
          \o (IF ClaimList(rows, s, g, c) THEN "" ELSE "list ")
          \o (IF ClaimHeader(rows, g, c) THEN "" ELSE "header ")
